@@ -76,6 +76,37 @@ theorem overlap_unequal_widths (σ₁ σ₂ a b : ℝ) (h1 : 0 < σ₁) (h2 : 0 
       = √(2 * σ₁ * σ₂ / (σ₁ ^ 2 + σ₂ ^ 2)) * exp (-((a - b) ^ 2) / (2 * (σ₁ ^ 2 + σ₂ ^ 2))) :=
   PW.OverlapGeneral.overlap_general σ₁ σ₂ a b h1 h2
 
+/-- … symmetric under exchanging the two envelopes (widths and centres together) -/
+theorem overlap_unequal_symmetric (σ₁ σ₂ a b : ℝ) (h1 : 0 < σ₁) (h2 : 0 < σ₂) :
+    ∫ t, PW.OverlapGeneral.gprof σ₁ a t * PW.OverlapGeneral.gprof σ₂ b t
+      = ∫ t, PW.OverlapGeneral.gprof σ₂ b t * PW.OverlapGeneral.gprof σ₁ a t := by
+  rw [overlap_unequal_widths σ₁ σ₂ a b h1 h2, overlap_unequal_widths σ₂ σ₁ b a h2 h1]
+  congr 2
+  · ring_nf
+  · ring_nf
+
+/-- … and always in `(0, 1]`, whatever the two widths and the delay (`2σ₁σ₂ ≤ σ₁² + σ₂²`) -/
+theorem overlap_unequal_range (σ₁ σ₂ a b : ℝ) (h1 : 0 < σ₁) (h2 : 0 < σ₂) :
+    0 < ∫ t, PW.OverlapGeneral.gprof σ₁ a t * PW.OverlapGeneral.gprof σ₂ b t ∧
+    ∫ t, PW.OverlapGeneral.gprof σ₁ a t * PW.OverlapGeneral.gprof σ₂ b t ≤ 1 := by
+  rw [overlap_unequal_widths σ₁ σ₂ a b h1 h2]
+  have hs : 0 < σ₁ ^ 2 + σ₂ ^ 2 := by positivity
+  have hq : 0 < 2 * σ₁ * σ₂ / (σ₁ ^ 2 + σ₂ ^ 2) := by positivity
+  have hq1 : 2 * σ₁ * σ₂ / (σ₁ ^ 2 + σ₂ ^ 2) ≤ 1 := by
+    rw [div_le_one hs]; nlinarith [sq_nonneg (σ₁ - σ₂)]
+  have he : exp (-((a - b) ^ 2) / (2 * (σ₁ ^ 2 + σ₂ ^ 2))) ≤ 1 := by
+    rw [exp_le_one_iff]
+    have : 0 ≤ (a - b) ^ 2 / (2 * (σ₁ ^ 2 + σ₂ ^ 2)) := by positivity
+    have h : -((a - b) ^ 2) / (2 * (σ₁ ^ 2 + σ₂ ^ 2)) = -((a - b) ^ 2 / (2 * (σ₁ ^ 2 + σ₂ ^ 2))) := by ring
+    rw [h]; linarith
+  refine ⟨mul_pos (Real.sqrt_pos.mpr hq) (exp_pos _), ?_⟩
+  have hsq : √(2 * σ₁ * σ₂ / (σ₁ ^ 2 + σ₂ ^ 2)) ≤ 1 := by
+    calc √(2 * σ₁ * σ₂ / (σ₁ ^ 2 + σ₂ ^ 2)) ≤ √1 := Real.sqrt_le_sqrt hq1
+      _ = 1 := Real.sqrt_one
+  calc √(2 * σ₁ * σ₂ / (σ₁ ^ 2 + σ₂ ^ 2)) * exp (-((a - b) ^ 2) / (2 * (σ₁ ^ 2 + σ₂ ^ 2)))
+      ≤ 1 * 1 := mul_le_mul hsq he (exp_pos _).le (by norm_num)
+    _ = 1 := by norm_num
+
 example : (0 : ℝ) < 42.45e-15 := by norm_num  -- the default pulse width satisfies the hypothesis
 
 end PW.Props.C19
@@ -87,3 +118,5 @@ end PW.Props.C19
 #print axioms PW.Props.C19.overlap_symmetric
 #print axioms PW.Props.C19.overlap_range
 #print axioms PW.Props.C19.overlap_unequal_widths
+#print axioms PW.Props.C19.overlap_unequal_symmetric
+#print axioms PW.Props.C19.overlap_unequal_range
